@@ -385,6 +385,15 @@ class TimeTriggeredPlanValidator(engines.engine.Engine, mixins.PlanValidatorMixi
                             # Handle "delete before add" semantics
                             if v.bool_constant_value():
                                 updates[f] = v
+                        elif (
+                            eff.is_assignment()
+                            and f in assigned
+                            and assigned[f] == ai
+                            and updates[f].constant_value() == v.constant_value()
+                        ):
+                            # the same value assigned twice by the same action instance
+                            # is not a conflict (as in the UPSequentialSimulator)
+                            pass
                         else:
                             raise UPConflictingEffectsException("Double effect")
                     else:
